@@ -29,6 +29,7 @@ type skInput struct {
 	Prefill []skOp   `json:"prefill,omitempty"` // run by thread 0's program prefix, sequentially (it is simply part of thread 0... kept empty)
 	MM      bool     `json:"mm"`
 	Stall   bool     `json:"stall,omitempty"` // scheduling heuristic: hold back a thread that has just marked a node
+	Refresh int      `json:"refresh,omitempty"` // iterators refresh every Refresh steps (oracle-only runs: the model's iterator does not refresh)
 }
 
 var skAllPoints = []int{
@@ -183,6 +184,7 @@ func skRun(in *skInput, sink *CaseSink, prop string) {
 		stepNo++
 	}
 	var hist []skHist
+	opPanic := ""
 	var iterSeq []int // keys returned by the iterator thread in order (C15 oracle)
 	var iterBad string
 	iterStartStep, iterStartKey, iterExhausted := -1, -1<<62, false
@@ -190,7 +192,16 @@ func skRun(in *skInput, sink *CaseSink, prop string) {
 		t := t
 		sch.Go(t, func() {
 			buf := sl.MakeBuf()
-			it := sl.NewIterator2(skiplist.CompareInt, sl.MakeBuf())
+			defer func() {
+				if e := recover(); e != nil && opPanic == "" {
+					opPanic = fmt.Sprintf("goroutine %d panicked inside an operation: %v", t, e)
+				}
+			}()
+			it := sl.NewIterator(skiplist.CompareInt, sl.MakeBuf())
+			defer it.Close()
+			if in.Refresh > 0 {
+				it.SetRefreshInterval(in.Refresh)
+			}
 			mine := map[int]*skiplist.Node{}
 			positioned := false
 			for i, op := range in.Progs[t] {
@@ -397,6 +408,9 @@ func skRun(in *skInput, sink *CaseSink, prop string) {
 	bad, sig := "", ""
 	if sch.stall {
 		bad, sig = "a scheduled goroutine neither reached a yield point nor finished within 20s", "c13-stall"
+	}
+	if bad == "" && opPanic != "" {
+		bad, sig = opPanic, "c13-panic"
 	}
 	if bad == "" && finished {
 		bad, sig = skLinearizable(hist)
@@ -622,7 +636,7 @@ func skExhCommand(a runArgs) error {
 	sink := NewSink(a.out, "C13", "Tie.SkipTie", a.seed)
 	sink.scope = "nat_scope"
 	sink.perFile = 40
-	sink.meta.Rule = "SYSTEMATIC: pile-up programs (3..4 keys built by goroutine 0, then three goroutines each deleting one of neighbouring keys and possibly re-inserting or looking up a deleted key): every schedule in which the running goroutine changes only at operation boundaries and right after a delete mark has been set is executed (depth-first, capped per program) and replayed on the model step by step; oracles as skip; non-trivial = at least two switches away from a goroutine that had just marked a node"
+	sink.meta.Rule = "SYSTEMATIC: pile-up programs (3..4 keys built by goroutine 0, then three goroutines each deleting one of neighbouring keys and possibly re-inserting or looking up a deleted key) alternating with duel programs (2..3 goroutines deleting the same node of height 1..3, possibly re-inserting it): every schedule in which the running goroutine changes only at operation boundaries and right after a delete mark has been set is executed (depth-first, capped per program) and replayed on the model step by step; oracles as skip; non-trivial = at least two switches away from a goroutine that had just marked a node"
 	top := rand.New(rand.NewSource(a.seed))
 	total := 0
 	for p := 0; p < a.n; p++ {
@@ -634,6 +648,21 @@ func skExhCommand(a runArgs) error {
 				{{Op: "del", K: 30}, {Op: "ins", K: 30}},
 				{{Op: "del", K: 20}},
 				{{Op: "del", K: 10}}}}
+		} else if p%2 == 1 {
+			// duel: several goroutines delete the SAME tall node (marks are set level by level, top-down)
+			tall := 1 + (p/2)%3
+			base = &skInput{Progs: [][]skOp{
+				{{Op: "ins", K: 10, Want: tall}, {Op: "ins", K: 20, Want: top.Intn(2)}},
+				{{Op: "del", K: 10}},
+				{{Op: "del", K: 10}}}}
+			switch top.Intn(3) {
+			case 0:
+				base.Progs = append(base.Progs, []skOp{{Op: "del", K: 10}})
+			case 1:
+				base.Progs = append(base.Progs, []skOp{{Op: "ins", K: 10, Want: top.Intn(3)}})
+			default:
+				base.Progs[1] = append(base.Progs[1], skOp{Op: "ins", K: 10, Want: top.Intn(2)})
+			}
 		} else {
 			for {
 				base = skGen(top, false)
@@ -697,7 +726,76 @@ func skCommand(prop string, iterMode bool, rule string) func(a runArgs) error {
 	}
 }
 
+// skip-iter-refresh: as skip-iter with refreshing iterators; oracle only
+func skIterRefreshCommand(a runArgs) error {
+	sink := NewSink(a.out, "C15", "", a.seed)
+	sink.meta.Rule = "ORACLE ONLY: as skip-iter, the iterator refreshing every 1..3 steps (Refresh = new session + Seek to the current item), with deletes aimed at the node the iterator stands on, its predecessor and its successor; oracles: never backwards, soundness, completeness; non-trivial as skip"
+	run := func(in *skInput) {
+		skRun(in, sink, "C15")
+	}
+	if a.replay != "" {
+		bs, err := os.ReadFile(a.replay)
+		if err != nil {
+			return err
+		}
+		var rp struct {
+			Case skInput `json:"case"`
+		}
+		if err := json.Unmarshal(bs, &rp); err != nil {
+			return err
+		}
+		run(&rp.Case)
+		sink.cases = nil
+		return sink.Flush()
+	}
+	top := rand.New(rand.NewSource(a.seed))
+	for i := 0; i < a.n; i++ {
+		in := skGen(top, true)
+		in.Refresh = 1 + top.Intn(3)
+		in.MM = i%3 == 2
+		if i%2 == 0 {
+			// a long stable run of keys under the scan, other goroutines delete single keys of it
+			nk := 4 + top.Intn(3)
+			var prog0 []skOp
+			for k := 1; k <= nk; k++ {
+				prog0 = append(prog0, skOp{Op: "ins", K: 10 * k, Want: top.Intn(2)})
+			}
+			scan := []skOp{{Op: "first"}}
+			for k := 0; k < nk+1; k++ {
+				scan = append(scan, skOp{Op: "next"})
+			}
+			in.Progs = [][]skOp{prog0, {{Op: "del", K: 10 * (1 + top.Intn(nk))}}, {{Op: "del", K: 10 * (1 + top.Intn(nk))}}, scan}
+			in.Sticky = []int{60, 85, 95}[top.Intn(3)]
+			if i%4 == 0 {
+				// the scanning goroutine itself deletes the node it stands on (or a neighbour) between
+				// two steps — the deletion is complete before the next step, whatever the schedule
+				j := top.Intn(nk - 1)
+				victim := 10 * (j + 1 + []int{0, 0, 0, -1, 1}[top.Intn(5)])
+				scan = []skOp{{Op: "first"}}
+				for k := 0; k < j; k++ {
+					scan = append(scan, skOp{Op: "next"})
+				}
+				if victim >= 10 {
+					scan = append(scan, skOp{Op: "del", K: victim})
+				}
+				for k := 0; k < nk+1-j; k++ {
+					scan = append(scan, skOp{Op: "next"})
+				}
+				in.Progs[3] = scan
+				if top.Intn(2) == 0 {
+					in.Progs = [][]skOp{prog0, scan}
+				}
+			}
+		}
+		sink.Begin(in)
+		run(in)
+	}
+	sink.cases = nil
+	return sink.Flush()
+}
+
 func init() {
+	commands["skip-iter-refresh"] = skIterRefreshCommand
 	commands["skip"] = skCommand("C13", false, "2..4 goroutines on one skiplist (Go-managed and user-managed node memory), programs of 1..3 Insert (scripted level 0..3)/Delete/DeleteNode/Lookup over 2..4 keys after a short build phase, random schedules (stickiness 0/30/60/85%) parking before EVERY atomic access of findPath, Insert4, softDelete and NewLevel; after each step the label and the level-0 chain with marks are compared with the model, at the end all levels, results and statistics; oracle: brute-force linearizability of the call/return history + structural walk; non-trivial = >=2 preemptions inside operations and >=3 completed ops")
 	commands["skip-exh"] = skExhCommand
 	commands["skip-iter"] = skCommand("C15", true, "as skip, with one goroutine running SeekFirst/Seek + Next... on the list while the others insert and delete (including the node it stands on and its predecessor); oracle additionally: the iterator never goes backwards")
